@@ -86,6 +86,7 @@ def step (s : St) (line : String) : St × String :=
       | "ior", [b] => put (BitVec5.ior cur (g b)) "ok"
       | "iand", [b] => put (BitVec5.iand cur (g b)) "ok"
       | _, _ => (s, "bad-op")
+  | some ["reset"] => ({}, "ok")
   | _ => (s, "bad-op")
 
 def main : IO Unit := runDriver ({} : St) step
